@@ -28,6 +28,8 @@ type vEnv struct {
 
 	// C02 monitor
 	pending     bool
+	relaxed     bool    // runs from New: judge C02 on what a reader of the output can tell (per-input queues), not on the read-then-write mechanism
+	queue       [][]int // relaxed: items read from input i and not yet written, oldest first
 	pendingItem int
 	pendingIdx  int
 	sends       int
@@ -181,6 +183,7 @@ func vArbitraryF(n int, unbuffered int, fullMaps bool) *vEnv {
 	vAssume(d.feedbackLimit >= 1)
 	e.d = d
 	vKnownFields(d, "opts feedback inputs output priorities actual strategic tactic uncrowded useful feedbackLimit interrupter err")
+	vKnownFields(&common.Input[int]{}, "Channel Drained") // per-input state (e.g. a held item) added by a change is outside the invariant built here
 	e.G = make([]uint, n)
 	present := 1
 	if !e.fullMaps {
@@ -216,6 +219,7 @@ func vArbitraryF(n int, unbuffered int, fullMaps bool) *vEnv {
 // monitors: C01 capacity at the instant of every hand-out, C02 pending-item protocol
 func (e *vEnv) monitors() {
 	d := e.d
+	e.queue = make([][]int, len(e.ins))
 	vOnSend(d.output, func(v any) {
 		x := v.(types.Prioritized[int])
 		e.sends++
@@ -225,6 +229,21 @@ func (e *vEnv) monitors() {
 		// C01: in flight before this hand-out, plus one, fits
 		inflight := vSumAssert("in-flight total", e.G...)
 		vAssert(inflight+1 > inflight && inflight+1 <= e.H, "C01: handing out an item keeps in-flight <= HandlersQuantity")
+		if e.relaxed {
+			// C02 as a reader of the output sees it: the item written is the oldest item read from the input registered
+			// under the priority it carries and not yet written - holds for any internal buffering that keeps the order
+			j := vIdx(x.Priority)
+			vAssert(j >= 0, "C02: the item carries the priority of a configured input")
+			if j >= 0 {
+				vAssert(len(e.queue[j]) > 0, "C02: every output write is preceded by an input read (nothing fabricated or duplicated)")
+				if len(e.queue[j]) > 0 {
+					vAssert(x.Item == e.queue[j][0], "C02: the item written is the oldest item read from the input registered under its priority and not yet written (no reordering, no wrong tag)")
+					e.queue[j] = e.queue[j][1:]
+				}
+				e.G[j]++
+			}
+			return
+		}
 		// C02: this is exactly the item just read, tagged with the priority its channel is registered under
 		vAssert(e.pending, "C02: every output write is preceded by an input read (nothing fabricated or duplicated)")
 		if e.pending {
@@ -237,6 +256,13 @@ func (e *vEnv) monitors() {
 	for i := range e.ins {
 		i := i
 		vOnRecv(e.ins[i], func(v any, ok bool) {
+			if e.relaxed {
+				if ok {
+					e.recvs++
+					e.queue[i] = append(e.queue[i], v.(int))
+				}
+				return
+			}
 			vAssert(!e.pending, "C02: an item read from an input is written out before anything else is read")
 			if ok {
 				e.recvs++
@@ -247,7 +273,7 @@ func (e *vEnv) monitors() {
 		})
 	}
 	vOnRecv(d.feedback, func(v any, ok bool) {
-		vAssert(!e.pending, "C02: no feedback is read while an item is pending")
+		vAssert(vOr(e.relaxed, !e.pending), "C02: no feedback is read while an item is pending")
 		if ok {
 			p := v.(uint)
 			i := vIdx(p)
